@@ -22,6 +22,12 @@ var noEffectPkgs = []string{
 var pureFuncs = map[string]bool{
 	"golang.org/x/crypto/blake2b.Sum256": true, "golang.org/x/crypto/blake2b.Sum512": true,
 	"crypto/aes.NewCipher": true, "crypto/cipher.NewGCM": true,
+	// hashing helpers of the module: digests are uninterpreted (results unconstrained), inputs only read
+	"github.com/ChainSafe/gossamer/lib/common.Blake2bHash": true, "github.com/ChainSafe/gossamer/lib/common.MustBlake2bHash": true,
+	"github.com/ChainSafe/gossamer/lib/common.Blake2b128": true, "github.com/ChainSafe/gossamer/lib/common.Keccak256": true,
+	"github.com/ChainSafe/gossamer/lib/common.Twox128Hash": true, "github.com/ChainSafe/gossamer/lib/common.Twox64": true,
+	"github.com/ChainSafe/gossamer/lib/common.Sha256": true, "github.com/ChainSafe/gossamer/lib/common.MustBlake2b8": true,
+	"(github.com/ChainSafe/gossamer/dot/types.Extrinsic).Hash": true,
 	"bytes.Compare": true, "bytes.Contains": true, "bytes.Index": true, "bytes.IndexByte": true,
 	"strings.HasPrefix": true, "strings.HasSuffix": true, "strings.Contains": true, "strings.TrimPrefix": true,
 	"encoding/hex.EncodeToString": true, "(*math/big.Int).Cmp": true, "(*math/big.Int).Sign": true,
@@ -139,6 +145,158 @@ func DefaultModels() map[string]Model {
 		w := x.memWords(st, args[0])
 		x.setGhost(st, "memwords:"+args[0].L[1].String(), Ite(ok, Store(w, off, args[2].L[0]), w))
 		return retOne(st, boolV(ok))
+	}
+	// ---- container/heap over a heap.Interface whose dynamic type is known: the element order is
+	// abstracted (the backing slice is permuted arbitrarily, non-nil-ness of its elements is preserved), and
+	// Push / Pop / Remove end with the real h.Push(x) / h.Pop() of the interface ----
+	heapPermute := func(x *Exec, st *State, recv Value) {
+		// recv: pointer to a slice type with pointer elements
+		pt, ok := recv.T.Underlying().(*types.Pointer)
+		if !ok {
+			return
+		}
+		slT, ok := pt.Elem().Underlying().(*types.Slice)
+		if !ok {
+			x.havocReachable(st, recv)
+			return
+		}
+		sv := x.load(st, x.ptrLoc(recv))
+		sv.T = pt.Elem()
+		p := sl(sv)
+		et := slT.Elem()
+		fam := "arr:" + x.c.elemFamName(et)
+		for j, l := range x.c.leaves(et) {
+			c := x.comp(st, fam, et, j)
+			old := Select(c, p.base)
+			na := x.c.Fresh("heap_perm", SArr(idxSort, l.S))
+			if l.Kind == 'r' {
+				x.qcount++
+				k := Var("k!q"+itoa(x.qcount), idxSort)
+				// elements are the same pointers in another order; the queue never holds nil items
+				// (heap.Interface methods would dereference them), so none appears
+				_ = old
+				st.assume(Quant("forall", []*Term{k}, Implies(BVCmp("bvult", k, p.ln), Not(Eq(Select(na, BVBin("bvadd", p.off, k)), IntLit(0)))), Select(na, BVBin("bvadd", p.off, k))))
+			}
+			x.setComp(st, fam, et, j, Store(c, p.base, na))
+		}
+	}
+	heapMethod := func(x *Exec, fr *Frame, st *State, h Value, name string, args []Value, pos token.Pos) []Outcome {
+		if !h.L[0].IsLit {
+			unsup("container/heap on an interface of unknown dynamic type")
+		}
+		T := x.c.tagTypes[int(h.L[0].Val.Int64())]
+		sel := x.prog.MethodSets.MethodSet(T).Lookup(nil, name)
+		if sel == nil {
+			unsup("container/heap: %s has no method %s", typeName(T), name)
+		}
+		fn := x.prog.MethodValue(sel)
+		return x.callFn(fr, st, fn, append([]Value{x.unbox(st, h, T)}, args...), nil, pos)
+	}
+	heapNote := "assumed: container/heap functions permute the underlying slice arbitrarily (heap order not modelled) and end with the interface's own Push/Pop"
+	m["container/heap.Init"] = func(x *Exec, fr *Frame, st *State, args []Value, pos token.Pos) []Outcome {
+		x.c.note(heapNote)
+		if args[0].L[0].IsLit {
+			heapPermute(x, st, x.unbox(st, args[0], x.c.tagTypes[int(args[0].L[0].Val.Int64())]))
+		}
+		return []Outcome{{St: st, Kind: OutReturn}}
+	}
+	m["container/heap.Fix"] = m["container/heap.Init"]
+	m["container/heap.Push"] = func(x *Exec, fr *Frame, st *State, args []Value, pos token.Pos) []Outcome {
+		x.c.note(heapNote)
+		outs := heapMethod(x, fr, st, args[0], "Push", []Value{args[1]}, pos)
+		for _, o := range outs {
+			if o.Kind == OutReturn {
+				heapPermute(x, o.St, x.unbox(o.St, args[0], x.c.tagTypes[int(args[0].L[0].Val.Int64())]))
+			}
+		}
+		return outs
+	}
+	popLike := func(x *Exec, fr *Frame, st *State, args []Value, pos token.Pos) []Outcome {
+		x.c.note(heapNote)
+		if args[0].L[0].IsLit {
+			heapPermute(x, st, x.unbox(st, args[0], x.c.tagTypes[int(args[0].L[0].Val.Int64())]))
+		}
+		return heapMethod(x, fr, st, args[0], "Pop", nil, pos)
+	}
+	m["container/heap.Pop"], m["container/heap.Remove"] = popLike, popLike
+	// ---- container/list: structure abstracted (links unconstrained), element payloads preserved ----
+	listHavocLinks := func(x *Exec, st *State, e Value) {
+		// next, prev, list of an Element may change; Value does not
+		loc := x.ptrLoc(e)
+		stt, ok := loc.T.Underlying().(*types.Struct)
+		if !ok {
+			return
+		}
+		for i := 0; i < stt.NumFields(); i++ {
+			if stt.Field(i).Name() == "Value" {
+				continue
+			}
+			l := *loc
+			lo, hi := x.c.fieldRange(stt, i)
+			l.Lo, l.Hi, l.T = loc.Lo+lo, loc.Lo+hi, stt.Field(i).Type()
+			x.store(st, &l, x.freshValue(st, "link", l.T))
+		}
+	}
+	listNote := "assumed: container/list methods rewrite the list object and the links of the elements involved, never an element's Value; PushFront returns a new element holding the value"
+	m["(*container/list.List).MoveToFront"] = func(x *Exec, fr *Frame, st *State, args []Value, pos token.Pos) []Outcome {
+		x.c.note(listNote)
+		x.guardAccess(st, args[0].L[0], true)
+		x.havocReachable(st, args[0])
+		listHavocLinks(x, st, args[1])
+		return []Outcome{{St: st, Kind: OutReturn}}
+	}
+	m["(*container/list.List).MoveToBack"] = m["(*container/list.List).MoveToFront"]
+	m["(*container/list.List).Remove"] = func(x *Exec, fr *Frame, st *State, args []Value, pos token.Pos) []Outcome {
+		x.c.note(listNote)
+		x.havocReachable(st, args[0])
+		listHavocLinks(x, st, args[1])
+		loc := *x.ptrLoc(args[1])
+		stt := loc.T.Underlying().(*types.Struct)
+		for i := 0; i < stt.NumFields(); i++ {
+			if stt.Field(i).Name() == "Value" {
+				lo, hi := x.c.fieldRange(stt, i)
+				loc.Lo, loc.Hi, loc.T = loc.Lo+lo, loc.Lo+hi, stt.Field(i).Type()
+			}
+		}
+		return retOne(st, x.load(st, &loc))
+	}
+	pushModel := func(x *Exec, fr *Frame, st *State, args []Value, pos token.Pos) []Outcome {
+		x.c.note(listNote)
+		x.havocReachable(st, args[0])
+		et := x.lookupType("container/list.Element")
+		if et == nil {
+			unsup("container/list.Element not loaded")
+		}
+		ref := x.newRef(st, "listelem")
+		ev := Value{T: types.NewPointer(et), L: []*Term{ref}}
+		loc := x.ptrLoc(ev)
+		x.store(st, loc, x.freshValue(st, "elem", et))
+		stt := et.Underlying().(*types.Struct)
+		for i := 0; i < stt.NumFields(); i++ {
+			if stt.Field(i).Name() == "Value" {
+				l := *loc
+				lo, hi := x.c.fieldRange(stt, i)
+				l.Lo, l.Hi, l.T = loc.Lo+lo, loc.Lo+hi, stt.Field(i).Type()
+				x.store(st, &l, args[1])
+			}
+		}
+		return retOne(st, ev)
+	}
+	m["(*container/list.List).PushFront"], m["(*container/list.List).PushBack"] = pushModel, pushModel
+	for _, n := range []string{"Back", "Front"} {
+		m["(*container/list.List)."+n] = func(x *Exec, fr *Frame, st *State, args []Value, pos token.Pos) []Outcome {
+			x.guardAccess(st, args[0].L[0], false)
+			et := x.lookupType("container/list.Element")
+			v := x.freshValue(st, "listend", types.NewPointer(et))
+			if st.calls == nil {
+				st.calls = map[string][]Value{}
+			}
+			return retOne(st, v)
+		}
+	}
+	m["(*container/list.List).Len"] = func(x *Exec, fr *Frame, st *State, args []Value, pos token.Pos) []Outcome {
+		x.guardAccess(st, args[0].L[0], false)
+		return retOne(st, x.freshValue(st, "listlen", tInt))
 	}
 	// ---- math/big.Int as an opaque object: constructors allocate, arithmetic methods write only the
 	// receiver and return it (numeric values are not modelled here) ----
@@ -377,6 +535,71 @@ func itoa(i int) string {
 		i /= 10
 	}
 	return s
+}
+
+// ---- lock discipline (data-race freedom by contract) ----
+
+type guard struct {
+	isMap   bool
+	lockKey string
+	ref     *Term
+	what    string
+}
+
+// mutexKey returns the ghost key of the mutex denoted by v: a *sync.Mutex / *sync.RWMutex, or a
+// pointer to a struct with a mutex field (the first one).
+func (x *Exec) mutexKey(v Value) string {
+	loc := *x.ptrLoc(v)
+	if stt, ok := loc.T.Underlying().(*types.Struct); ok && !strings.HasPrefix(typeName(loc.T), "sync.") {
+		found := false
+		for i := 0; i < stt.NumFields(); i++ {
+			tn := typeName(stt.Field(i).Type())
+			if tn == "sync.Mutex" || tn == "sync.RWMutex" {
+				lo, hi := x.c.fieldRange(stt, i)
+				loc.Lo, loc.Hi, loc.T = loc.Lo+lo, loc.Lo+hi, stt.Field(i).Type()
+				found = true
+				break
+			}
+		}
+		if !found {
+			unsup("spec: no mutex field in %s", typeName(v.T))
+		}
+	}
+	return "lock:" + locKey(&loc)
+}
+
+func (x *Exec) lockState(st *State, key string) *Term {
+	if cur, ok := st.ghost[key]; ok {
+		return cur
+	}
+	return IntLit(0)
+}
+
+// guardAccess emits the lock-discipline obligation for an access to the object at ref.
+func (x *Exec) guardAccess(st *State, ref *Term, write bool) { x.guardAccessK(st, ref, write, false) }
+
+// guardAccessK: isMap tells whether ref denotes a map (maps and heap objects live in separate reference
+// spaces, a guarded map is never confused with a guarded pointee).
+func (x *Exec) guardAccessK(st *State, ref *Term, write bool, isMap bool) {
+	if len(x.guards) == 0 || st.dry || x.inInit || ref == nil || x.inSpec > 0 {
+		return
+	}
+	label, pos := "access", token.NoPos
+	if x.curIns != nil && x.curFr != nil {
+		pos = x.curIns.Pos()
+		label = x.src(x.curFr.fn, pos, "access")
+	}
+	for _, g := range x.guards {
+		if g.isMap != isMap || distinctTerms(ref, g.ref) {
+			continue
+		}
+		cur := x.lockState(st, g.lockKey)
+		if write {
+			x.oblige(x.curFr, st, "race", label+":write_needs_write_lock("+g.what+")", pos, Implies(Eq(ref, g.ref), Eq(cur, IntLit(1))))
+		} else {
+			x.oblige(x.curFr, st, "race", label+":read_needs_lock("+g.what+")", pos, Implies(Eq(ref, g.ref), Not(Eq(cur, IntLit(0)))))
+		}
+	}
 }
 
 // setGhost writes a ghost variable and records the write for loop write-set discovery.
